@@ -1,4 +1,13 @@
-from rope.base import evaluate, exceptions, libutils, pynames, taskhandle, utils, worder
+from rope.base import (
+    evaluate,
+    exceptions,
+    libutils,
+    pynames,
+    simplify,
+    taskhandle,
+    utils,
+    worder,
+)
 from rope.base.change import ChangeContents, ChangeSet
 from rope.refactor import occurrences, sourceutils
 
@@ -171,8 +180,8 @@ class _FindChangesForModule:
                 start_line, end_line = self.pymodule.logical_lines.logical_line_in(
                     current_line
                 )
-                self.last_set = self.lines.get_line_end(end_line)
                 end = self.source.index("=", end) + 1
+                self.last_set = self._statement_end(end, self.lines.get_line_end(end_line))
                 self.set_index = len(result)
             else:
                 result.append(self.getter + "()")
@@ -191,6 +200,15 @@ class _FindChangesForModule:
             result.append(set_value + ")")
             self.last_modified = self.last_set
             self.last_set = None
+
+    def _statement_end(self, start, line_end):
+        # In `real_code` comments are blanked and `;` are newlines: the value
+        # ends before a trailing comment or the next statement of the line.
+        code = simplify.real_code(self.source)
+        end = code.find("\n", start, line_end)
+        if end == -1:
+            end = line_end
+        return len(code[:end].rstrip())
 
     def _is_assigned_in_a_tuple_assignment(self, occurrence):
         offset = occurrence.get_word_range()[0]
